@@ -486,6 +486,23 @@ func run(c *core.Ctx) {
 			body := newBody()
 			emitEM("every-label", d, label&0x7fffffff, body, buildEM(k, hashes[1].withNul, digestsOf(body)["SHA256"]), "out-of-range label")
 		}
+		// every label with blocks that carry no digest algorithm identifier: the to-be-signed bytes themselves
+		// (short enough to fit, as for a signature made "directly" over the data), and a bare digest
+		for label := 0; label <= 17; label++ {
+			for _, n := range []int{1, 32, k - 11, k - 12} {
+				if n < 1 {
+					continue
+				}
+				body := make([]byte, n)
+				r.Read(body)
+				body[0] = 0x30
+				emitEM("every-label-raw-body-block", d, label, body, buildEM(k, nil, body), fmt.Sprintf("label %d, block 00 01 FF..FF 00 || the %d to-be-signed bytes, no identifier", label, n))
+			}
+			body := newBody()
+			for _, hn := range digestOrder {
+				emitEM("every-label-bare-digest-block", d, label, body, buildEM(k, nil, digestsOf(body)[hn]), fmt.Sprintf("label %d, block 00 01 FF..FF 00 || %s digest, no identifier", label, hn))
+			}
+		}
 	}
 
 	// (3) relation of the device certificate to the root pool; non-RSA device key
